@@ -16,7 +16,7 @@ func init() {
 		Run:  runC09, Quick: 80000, Thorough: 9600000,
 		Real: commonReal, Stub: commonStub,
 		Tolerances: []string{"leading_slash_capture as in C01"},
-		Domain:     []string{"hosts are lower case LDH labels from {a,b,ab,c} with values from the probe alphabet; ports numeric"},
+		Domain:     []string{"hosts are lower case LDH labels from {a,b,ab,c,a-b} with values from the probe alphabet; ports numeric"},
 	})
 }
 
